@@ -92,7 +92,7 @@ def run(chk, w):
                 if kb is None:
                     continue
                 for i in f.all_insts():
-                    if i.op == "store" and i.bb.id in body and _alloca_of(f, i["ptr"]) == kb:
+                    if i.op == "store" and i.bb.id in body and (_alloca_of(f, i["ptr"]) == kb or _points_into(f, i["ptr"], kb)):
                         rewritten = True
             if rewritten and lookups:
                 chk.ok("C04-WALK", 1, {"function": name, "stall_test": ld.loc()})
@@ -245,6 +245,12 @@ def run(chk, w):
                             tv = _bool_value(f, t["cond"])
                             if tv is not None and tv[0] == bv[0]:
                                 starts.append(f.bmap[t["f"] if tv[1] == bv[1] else t["t"]].insts[0])
+                        elif t.op == "switch":
+                            # `switch (reported) { case INACTIVE: ...`: the clearing case is where the same value is 0
+                            tv = _bool_value(f, t["cond"])
+                            if tv is not None and tv == bv:
+                                zero = [l for v_, l in t["cases"] if v_ == 0]
+                                starts.append(f.bmap[zero[0] if zero else t["default"]].insts[0])
                 if len(starts) == 1:
                     s = starts[0]
             # every path from the clearing store to return/unlock passes the 'waiter list is empty' edge
@@ -356,6 +362,12 @@ def _bool_value(f, o, depth=0):
             return inner[0], (inner[1] == pol) == (i["pred"] == "ne")
         elif i.op in ("icmp", "fcmp"):
             return i.id, pol
+        elif i.op == "select" and rules.const_of(f, i["a"]) is not None and rules.const_of(f, i["b"]) is not None and \
+                (rules.const_of(f, i["a"]) == 0) != (rules.const_of(f, i["b"]) == 0):
+            # `cond ? ACTIVE : INACTIVE` over a two-valued enum: non-zero exactly when cond picks the non-zero arm
+            if rules.const_of(f, i["a"]) == 0:
+                pol = not pol
+            o = i["cond"]
         else:
             return None
     return None
@@ -494,6 +506,33 @@ def _alloca_of(f, o):
         else:
             return None
     return None
+
+
+def _points_into(f, o, kb, seen=None):
+    """the pointer is (an offset from) the local buffer kb, possibly kept in a running pointer local (`level = &key[2]; ... level--; *level = 0`)"""
+    seen = seen if seen is not None else set()
+    for _ in range(8):
+        i = f.resolve(o)
+        if i is None:
+            return False
+        if i.op == "alloca":
+            return i.id == kb
+        if i.op == "bitcast":
+            o = i["a"]
+        elif i.op == "getelementptr":
+            o = i["base"]
+        elif i.op == "load":
+            a = f.resolve(i["ptr"])
+            if a is None or a.op != "alloca" or f.param_index_of_alloca(a) is not None:
+                return False
+            if a.id in seen:
+                return True
+            seen.add(a.id)
+            sts = [x for x in f.all_insts() if x.op == "store" and x["ptr"].get("k") == "inst" and x["ptr"]["id"] == a.id]
+            return bool(sts) and all(_points_into(f, x["val"], kb, seen) for x in sts)
+        else:
+            return False
+    return False
 
 
 def _branch_on(f, ld):
